@@ -308,6 +308,46 @@ def r3_7(ctx):
     ctx.floor(rid, n, 18, "calls passing an expression together with a denominator")
 
 
+R38_FORGET = ("forget_all_dbm_constraints", "forget_all_octagonal_constraints", "forget_binary_dbm_constraints", "forget_binary_octagonal_constraints")
+
+
+def r3_8(ctx):
+    import re
+    rid = "R3.8"
+    ctx.rule(rid, "every variable of a multi-variable left-hand side loses its constraints: generalized_affine_image(lhs, relsym, rhs) of Box, BD_Shape and Octagonal_Shape relates the NEW values of all variables occurring in lhs to the old state; when lhs has several variables nothing is known about any of them individually, so the function enumerates the variables of lhs (a loop over lhs.begin() .. lhs.end() or over its dimensions) and a forgetting operation (assign(UNIVERSE) on the interval, forget_all_*_constraints) runs inside a loop. Picking the first and the last variable leaves the ones in between constrained and cuts points of the exact image away")
+    fx = ctx.extract([F.driver_unit("domains.cc", file_re=r"(Box_templates|BD_Shape_templates|Octagonal_Shape_templates)\.hh")])
+    n = 0
+    seen = set()
+    for f in fx.functions:
+        if not f.flag("pattern") or (f.relfile, f.line) in seen:
+            continue
+        if f.name != "generalized_affine_image" or [p["n"] for p in f.params] != ["lhs", "relsym", "rhs"] or f.clsn not in ("Box", "BD_Shape", "Octagonal_Shape"):
+            continue
+        seen.add((f.relfile, f.line))
+        n += 1
+        inst = "%s::generalized_affine_image(lhs, relsym, rhs)" % f.clsn
+        enumerates = False
+        forgets_in_loop = False
+        for lp in f.walk():
+            if lp["k"] not in ("for", "while", "do"):
+                continue
+            head = " ".join(f.text(x) for c in lp["c"][:-1] if f.deref(c) is not None for x in f.walk(f.deref(c)) if x["k"] in ("call", "mcall", "ref", "member"))
+            if re.search(r"\blhs\s*\.\s*(begin|end)\b|\blhs_space_dim\b|\blhs\s*\.\s*space_dimension\b", head):
+                enumerates = True
+            body = f.deref(lp["c"][-1])
+            for c in f.calls(body) if body is not None else ():
+                cn = f.call_name(c).lstrip("~")
+                if cn in R38_FORGET or (cn == "assign" and "UNIVERSE" in f.text(c)):
+                    forgets_in_loop = True
+        if enumerates and forgets_in_loop:
+            ctx.ok(rid, inst, f.where())
+        elif not enumerates:
+            ctx.violation(rid, inst, f.where(), "no loop ranges over the variables of `lhs`: with three or more variables in the left-hand side some of them keep their old constraints")
+        else:
+            ctx.violation(rid, inst, f.where(), "the variables of `lhs` are enumerated but no forgetting operation runs inside a loop")
+    ctx.floor(rid, n, 3, "generalized_affine_image(lhs, relsym, rhs) implementations")
+
+
 def run(ctx):
     ctx.explanation = ("C03 rounding discipline on the instantiated weakly-relational domains (double, int32_t, mpz_class; mpq_class in the thorough tier): who may round "
                        "down, where ROUND_NOT_NEEDED may be used, and the encodings it rests on; decides the discipline, not the case analysis of the transformers")
@@ -322,5 +362,6 @@ def run(ctx):
     r3_5(ctx, fxb)
     r3_6(ctx)
     r3_7(ctx)
+    r3_8(ctx)
     dirty.run(ctx, "R3.4", fxb, lambda f: True, 150,
               "judged on Box<Rational_Interval>, BD_Shape<mpq_class>, Octagonal_Shape<mpq_class> and their matrices (found Box::generalized_affine_preimage multiplying by a never-written temporary)")
